@@ -15,15 +15,18 @@ LEAN_MODULES = ["MjwVerif.Props.C31", "MjwVerif.Props.C31Witness"]
 GEN_FUNCS = []
 NEEDS_DRIVER = False
 LEVEL_TEXT = ("Theorems about a hand-written executable Lean model (Model/IoOrder.lean) of the index computations of io.py put_data / get_data_into (host NumPy, not translated): for all contact "
-              "lists, row lists, capacities, cones and world counts `get (put h) w = h` for every world when no contact is excluded (`roundtrip`); the exported contacts are exactly world w's live "
-              "slots in slot order (`sel_sublist`, `mem_sel`); `efc_idx` is a permutation of the active rows when the contact blocks tile [ne+nf+nl, nefc) (`efc_reorder_perm`, `efc_rows_perm`); "
-              "the e/f/l prefix is passed through (`efl_prefix_identity`); the k-th row of the i-th exported contact sits at efc_address_ordered[i]+k and is device row efc_address[slot_i,k] "
-              "(`address_remap_consistent`: grouping, stability, remap).  Machine-checked witnesses: an MjData with an excluded contact (efc_address -1) does not round-trip.  The model is tied to "
-              "the source by sending the integer inputs of real put_data/get_data_into calls (random scenes, fuzzed address tables) to the model and comparing every answer with the real arrays.  "
-              "On the real code: put_model vs MjModel field by field, every unsupported enum value of the tables scanned from put_model's source must raise, feature sweep against mj_forward, "
-              "put_data->get_data_into round trip of every field get_data_into writes, and internal consistency of get_data_into after mjw.forward.")
+              "lists (excluded contacts with efc_address -1 included), row lists, capacities, cones and world counts `get (put h) w = h` for every world (`roundtrip`, `roundtrip_any_padding`); the "
+              "exported contacts are exactly world w's live slots in slot order (`sel_sublist`, `mem_sel`); `efc_idx` is a permutation of the active rows when the active contact blocks tile "
+              "[ne+nf+nl, nefc) (`efc_reorder_perm`, `efc_rows_perm`); the e/f/l prefix is passed through (`efl_prefix_identity`); the k-th row of the i-th exported active contact sits at "
+              "efc_address_ordered[i]+k and is device row efc_address[slot_i,k] (`address_remap_consistent`), a contact without rows is exported with -1 (`inactive_contact_exported_minus_one`).  "
+              "Machine-checked witnesses of what is still false: efc_id is not remapped to the exported contact list, sensor-only contact slots are exported.  The model is tied to the source by "
+              "sending the integer inputs of real put_data/get_data_into calls (random scenes, fuzzed address tables) to the model and comparing every answer with the real arrays.  On the real "
+              "code: put_model vs MjModel field by field, every unsupported enum value of the tables scanned from put_model's source must raise, feature sweep against mj_forward, "
+              "put_data->get_data_into round trip of every field get_data_into writes, and MuJoCo's efc_address/efc_id invariants of the export after mjw.forward.  Two defects found by this check "
+              "were repaired in /repo: 'fix: get_data_into used the -1 efc_address of a contact without constraint rows as a row index' (e4120b4) and 'fix: put_model silently ignored "
+              "opt.disableactuator (actuatorgroupdisable)' (7358257); their triggers run first as regression cases.")
 LEVEL_NOTE = ("C31_partial: put_model (feature rejection, field equality) and the plain per-world field copies are decided by the oracle only; the Lean model is hand-written (tie = correspondence run, "
-              "not regeneration). Trusted: Lean kernel, the correspondence run.")
+              "not regeneration). Still present in /repo (known findings): efc-id-not-remapped, extra-contacts-exported. Trusted: Lean kernel, the correspondence run.")
 ASSUMPTIONS = ["float32 storage: round-trip comparisons use rtol 2e-6", "fields whose layout legitimately differs (qLD block layout, island bookkeeping, energy without the energy flag) are listed in SKIP_FIELDS and counted"]
 VERIF = os.path.abspath(os.path.join(os.path.dirname(__file__), "..", ".."))
 LEAN = os.path.join(VERIF, "lean")
@@ -84,13 +87,16 @@ def _scene(rng, gap_prob=0.15, cone=None):
       meta["gap"] += 1
     else:
       z = 1.0
-    geom = {"sphere": f'<geom type="sphere" size="{r}" condim="{condim}"{attr}/>',
-            "capsule": f'<geom type="capsule" size="{r} .15" euler="0 1.5707963 0" condim="{condim}"{attr}/>',
-            "box": f'<geom type="box" size="{r} {r} {r}" condim="{condim}"/>'}[gt]
+    geom = {"sphere": f'<geom name="g{i}" type="sphere" size="{r}" condim="{condim}"{attr}/>',
+            "capsule": f'<geom name="g{i}" type="capsule" size="{r} .15" euler="0 1.5707963 0" condim="{condim}"{attr}/>',
+            "box": f'<geom name="g{i}" type="box" size="{r} {r} {r}" condim="{condim}"/>'}[gt]
     bodies.append(f'<body name="b{i}" pos="{0.7 * i} 0 {z}"><freejoint/>{geom}</body>')
     meta["kinds"].append((kind, gt, condim))
   arm = ""
   extra = ""
+  meta["distsensor"] = bool(n >= 2 and rng.random() < 0.25)
+  if meta["distsensor"]:
+    extra += '<sensor><distance geom1="g0" geom2="g1" cutoff="10"/></sensor>'
   if rng.random() < 0.7:
     fl = ' frictionloss="0.3"' if rng.random() < 0.6 else ""
     lim = ' limited="true" range="0.2 0.5"' if rng.random() < 0.7 else ""
@@ -310,6 +316,16 @@ def _fuzz_device(rng, d):
 
 
 # ------------------------------------------------------------------------------------------------ oracles on the real code
+def _find_once(acc, key, what, site, trig, **kw):
+  """one finding per (trigger, scene): the worlds of one scene repeat the same defect"""
+  seen = acc.__dict__.setdefault("_seen", set())
+  acc.hit("finding:" + trig)
+  if (trig, key) in seen:
+    return
+  seen.add((trig, key))
+  acc.find(what, site, trig, **kw)
+
+
 def _written_fields():
   """names X of every `result.X[...] = ` / `result.X = ` in get_data_into's source (re-read each run)"""
   from mujoco_warp._src import io
@@ -352,10 +368,8 @@ def _oracle_roundtrip(acc, mjm, ref, res, w, nworld, xml, meta, fields):
     if not _close(a, b):
       bad.append(f)
   if bad:
-    excluded = bool((np.asarray(ref.contact.efc_address) < 0).any()) if ncon else False
-    trig = "excluded-contact" if excluded and all(x.startswith(("efc_", "contact.efc_address")) for x in bad) else "roundtrip-field"
-    acc.find(f"get_data_into(put_data(mjd, nworld={nworld}), world {w}) differs from mjd in {bad[:8]}" + (" (MjData has a contact with efc_address -1)" if excluded else ""),
-             "io.get_data_into", trig, xml=xml, world=w, nworld=nworld, fields=bad[:12])
+    _find_once(acc, xml, f"get_data_into(put_data(mjd, nworld={nworld}), world {w}) differs from mjd in {bad[:8]}", "io.get_data_into", "roundtrip-field", xml=xml, world=w, nworld=nworld,
+               fields=bad[:12])
   return not bad
 
 
@@ -371,8 +385,11 @@ def _oracle_after_forward(acc, mjm, ref, res, d, w, xml):
   # MuJoCo's invariants of an MjData: efc_address of an included contact points at its first row, whose efc_id is the contact's index
   ctype = {int(mujoco.mjtConstraint.mjCNSTR_CONTACT_FRICTIONLESS), int(mujoco.mjtConstraint.mjCNSTR_CONTACT_PYRAMIDAL), int(mujoco.mjtConstraint.mjCNSTR_CONTACT_ELLIPTIC)}
   trig = None
-  if ncon != int(ref.ncon):
-    msgs.append(f"ncon {ncon} vs MuJoCo {int(ref.ncon)}")
+  nacon = min(int(d.nacon.numpy()[0]), int(d.naconmax))
+  live = d.contact.worldid.numpy()[:nacon] == w
+  nconstraint = int(((d.contact.type.numpy()[:nacon][live] & 1) != 0).sum())     # ContactType.CONSTRAINT = 1
+  if ncon != int(ref.ncon) and ncon != nconstraint:
+    msgs.append(f"{ncon} contacts exported, MuJoCo has {int(ref.ncon)}: {ncon - nconstraint} exported slot(s) are sensor-only (no ContactType.CONSTRAINT bit)")
     trig = "extra-contacts-exported"
   for i in range(ncon):
     a = int(res.contact.efc_address[i])
@@ -382,11 +399,11 @@ def _oracle_after_forward(acc, mjm, ref, res, d, w, xml):
       continue
     if a + nd > nefc:
       msgs.append(f"contact {i}: efc_address {a} + {nd} rows > nefc {nefc}")
-      trig = trig or "inactive-contact-after-forward"
+      trig = trig or "export-address-inconsistent"
       continue
     if any(int(res.efc_type[a + k]) not in ctype for k in range(nd)):
       msgs.append(f"contact {i}: rows at efc_address {a} have efc_type {res.efc_type[a:a + nd].tolist()}")
-      trig = trig or "inactive-contact-after-forward"
+      trig = trig or "export-address-inconsistent"
     elif any(int(res.efc_id[a + k]) != i for k in range(nd)):
       msgs.append(f"contact {i}: rows at efc_address {a} have efc_id {res.efc_id[a:a + nd].tolist()} (index into the device's flat contact array, not into world {w}'s contacts)")
       trig = trig or "efc-id-not-remapped"
@@ -399,7 +416,7 @@ def _oracle_after_forward(acc, mjm, ref, res, d, w, xml):
       msgs.append("efc (type, pos - margin) multiset differs from mj_forward")
       trig = trig or "rows-vs-mujoco"
   if msgs:
-    acc.find(f"get_data_into after mjw.forward, world {w}: " + "; ".join(msgs[:3]), "io.get_data_into", trig, xml=xml, world=w)
+    _find_once(acc, xml, f"get_data_into after mjw.forward, world {w}: " + "; ".join(msgs[:3]), "io.get_data_into", trig, xml=xml, world=w)
 
 
 def _scan_feature_tables():
@@ -421,7 +438,7 @@ def _scan_feature_tables():
 
 BASE_FEATURE_XML = ('<mujoco><option timestep="0.002"/><worldbody><geom type="plane" size="5 5 .1"/><body name="a" pos="0 0 .5"><joint name="j1" type="hinge" axis="0 1 0" damping=".2"/>'
                     '<geom name="g1" type="capsule" fromto="0 0 0 .3 0 0" size=".03"/><body name="b" pos=".3 0 0"><joint name="j2" type="slide" axis="0 0 1" range="-.5 .5"/><geom name="g2" size=".05"/>'
-                    '<site name="s1"/></body></body><body name="c" pos="1 0 .04"><freejoint name="fj"/><geom name="g3" size=".05"/><site name="s2"/></body></worldbody>'
+                    '<site name="s1"/></body></body><body name="c" pos="1 0 .0495"><freejoint name="fj"/><geom name="g3" size=".05"/><site name="s2"/></body></worldbody>'
                     '<tendon><fixed name="t1"><joint joint="j1" coef="1"/><joint joint="j2" coef="2"/></fixed><spatial name="t2"><site site="s1"/><site site="s2"/></spatial></tendon>'
                     '<equality><joint name="e1" joint1="j1" joint2="j2" active="false"/></equality>'
                     '<actuator><motor name="m1" joint="j1"/></actuator><sensor><jointpos joint="j1"/></sensor></mujoco>')
@@ -494,7 +511,7 @@ FEATURES = [
   ("spatial-tendon-limit", 'spatial name="t2"', ' limited="true" range="0 0.5"', None),
   ("eq-active", 'joint name="e1"', ' solref="0.01 1"', lambda s: s.replace('active="false"', 'active="true"')),
   ("actuator-gear-forcerange", 'motor name="m1"', ' gear="3" forcelimited="true" forcerange="-0.5 0.5"', None),
-  ("actuator-actearly", 'motor name="m1"', ' dyntype="filter" dynprm="0.05" actearly="true"', None),
+  ("actuator-actearly", 'motor name="m1"', '', lambda s: s.replace('<motor name="m1" joint="j1"/>', '<general name="m1" joint="j1" dyntype="filter" dynprm="0.05" actearly="true"/>')),
   ("geom-priority-solmix", 'geom name="g3"', ' priority="2" solmix="3" friction="0.3 0.01 0.001" condim="4"', None),
   ("geom-margin", 'geom name="g3"', ' margin="0.02"', None),
   ("geom-gap", 'geom name="g3"', ' margin="0.02" gap="0.05"', None),
@@ -504,6 +521,27 @@ FEATURES = [
   ("energy", 'option', '', lambda s: s.replace("<option", '<option><flag energy="enable"/></option><option')),
   ("multiccd-off", 'option', '', lambda s: s.replace("<option", '<option><flag multiccd="disable"/></option><option')),
   ("actuatorgroup-disable", 'option', ' actuatorgroupdisable="0"', None),
+  ("jnt-actuatorfrcrange", 'joint name="j1"', ' actuatorfrclimited="true" actuatorfrcrange="-0.2 0.2"', None),
+  ("jnt-actuatorgravcomp", 'joint name="j1"', ' actuatorgravcomp="true"', lambda s: s.replace('<body name="a"', '<body name="a" gravcomp="1"')),
+  ("flag-gravity-off", 'option', '', lambda s: s.replace("<option", '<option><flag gravity="disable"/></option><option')),
+  ("flag-contact-off", 'option', '', lambda s: s.replace("<option", '<option><flag contact="disable"/></option><option')),
+  ("flag-clampctrl-off", 'motor name="m1"', ' ctrllimited="true" ctrlrange="-.2 .2"', lambda s: s.replace("<option", '<option><flag clampctrl="disable"/></option><option')),
+  ("flag-actuation-off", 'option', '', lambda s: s.replace("<option", '<option><flag actuation="disable"/></option><option')),
+  ("flag-spring-damper-off", 'joint name="j2"', ' stiffness="30" damping="1"', lambda s: s.replace("<option", '<option><flag spring="disable" damper="disable"/></option><option')),
+  ("flag-equality-limit-off", 'joint name="j2"', ' limited="true"', lambda s: s.replace("<option", '<option><flag equality="disable" limit="disable" frictionloss="disable"/></option><option')),
+  ("flag-midphase-off", 'option', '', lambda s: s.replace("<option", '<option><flag midphase="disable"/></option><option')),
+  ("flag-island-off", 'option', '', lambda s: s.replace("<option", '<option><flag island="disable"/></option><option')),
+  ("flag-refsafe-off", 'geom name="g3"', ' solref="0.001 1"', lambda s: s.replace("<option", '<option><flag refsafe="disable"/></option><option')),
+  ("flag-invdiscrete", 'option', '', lambda s: s.replace("<option", '<option><flag invdiscrete="enable"/></option><option')),
+  ("muscle-actuator", 'motor name="m1"', '', lambda s: s.replace('<motor name="m1" joint="j1"/>', '<muscle name="m1" joint="j1" range="0.5 1.2" force="10"/>').replace('name="j1" type="hinge"', 'name="j1" type="hinge" range="-1 1"')),
+  ("adhesion-actuator", 'motor name="m1"', '', lambda s: s.replace('<motor name="m1" joint="j1"/>', '<adhesion name="m1" body="c" ctrlrange="0 1" gain="5"/>')),
+  ("site-transmission-refsite", 'motor name="m1"', '', lambda s: s.replace('<motor name="m1" joint="j1"/>', '<general name="m1" site="s1" refsite="s2" gear="1 0 0 0 1 0"/>')),
+  ("slidercrank", 'motor name="m1"', '', lambda s: s.replace('<motor name="m1" joint="j1"/>', '<general name="m1" cranksite="s1" slidersite="s2" cranklength="0.6"/>')),
+  ("tendon-actuator-limited", 'motor name="m1"', '', lambda s: s.replace('<motor name="m1" joint="j1"/>', '<motor name="m1" tendon="t2" gear="2"/>').replace('<spatial name="t2"', '<spatial name="t2" actuatorfrclimited="true" actuatorfrcrange="-.1 .1"')),
+  ("mocap-weld", 'option', '', lambda s: s.replace("<worldbody>", '<worldbody><body name="mc" mocap="true" pos="1 0 .2"/>').replace("<equality>", '<equality><weld body1="mc" body2="c" solref="0.02 1"/>')),
+  ("sensor-cutoff-noise", 'jointpos joint="j1"', ' cutoff="0.1" noise="0.1"', None),
+  ("solimp-solref-negative", 'geom name="g3"', ' solref="-1000 -50" solimp="0.8 0.95 0.01 0.3 3"', None),
+  ("frictionloss-tendon", 'fixed name="t1"', ' frictionloss="0.3" limited="true" range="-.1 .2" margin="0.05"', None),
 ]
 
 
@@ -511,7 +549,8 @@ def _oracle_features(acc, rng, nfeat):
   """a feature either makes put_model raise or one forward pass agrees with mj_forward"""
   import mujoco
   import mujoco_warp as mjw
-  order = rng.permutation(len(FEATURES))[:nfeat]
+  first = [k for k, f in enumerate(FEATURES) if f[0] == "actuatorgroup-disable"]    # regression case (repaired in 7358257): must be rejected now
+  order = first + [int(k) for k in rng.permutation(len(FEATURES)) if int(k) not in first][: max(0, nfeat - len(first))]
   for k in order:
     name, anchor, attrs, post = FEATURES[k]
     xml = BASE_FEATURE_XML.replace("<" + anchor, "<" + anchor + attrs, 1)
@@ -605,7 +644,7 @@ def _run(ctx, nscenes, nfuzz, nfeat, with_lean=True):
   try:
     for c in range(nscenes):
       xml, meta = _scene(rng, gap_prob=(0.15 if c % 3 == 0 else 0.0))
-      if c == 1:   # the minimal excluded-contact scene of the witness
+      if c == 0:   # regression case, runs first: the excluded-contact scene that exposed the defect repaired in e4120b4
         xml = ('<mujoco><worldbody><geom type="plane" size="3 3 .1"/><body pos="0 0 .25"><freejoint/><geom size=".1" margin="0.1" gap="0.08"/></body>'
                '<body pos="1 0 .09"><freejoint/><geom size=".1"/></body><body pos="0 0 1"><joint type="hinge" limited="true" range="-1 -0.5"/><geom size=".05"/></body></worldbody></mujoco>')
         meta = {"cone": "pyramidal", "jac": "dense", "gap": 1, "kinds": "witness"}
@@ -636,6 +675,8 @@ def _run(ctx, nscenes, nfuzz, nfeat, with_lean=True):
       acc.hit(f"nworld:{nworld}")
       acc.hit("excluded-contact-scene" if excluded else ("contacts" if mjd.ncon else "no-contacts"))
       acc.hit(f"ne>0:{int(mjd.ne > 0)} nf>0:{int(mjd.nf > 0)} nl>0:{int(mjd.nl > 0)}")
+      if meta.get("distsensor"):
+        acc.hit("geom-distance-sensor")
       acc.sample({"ncon": int(mjd.ncon), "nefc": int(mjd.nefc), "ne/nf/nl": [int(mjd.ne), int(mjd.nf), int(mjd.nl)], "nworld": nworld, "cone": meta["cone"], "dims": mjd.contact.dim.tolist()})
       what = {"scene": c, "nworld": nworld}
       if lean:
@@ -652,7 +693,7 @@ def _run(ctx, nscenes, nfuzz, nfeat, with_lean=True):
           except (IndexError, ValueError, TypeError):
             res = None
         if res is None:
-          acc.find(f"get_data_into(put_data(mjd, nworld={nworld}), world {w}) raised", "io.get_data_into", "excluded-contact" if excluded else "roundtrip-raises", xml=xml, world=w, nworld=nworld)
+          acc.find(f"get_data_into(put_data(mjd, nworld={nworld}), world {w}) raised", "io.get_data_into", "roundtrip-raises", xml=xml, world=w, nworld=nworld)
           continue
         _oracle_roundtrip(acc, mjm, ref, res, w, nworld, xml, meta, fields)
       # after a warp forward pass on make_data worlds (arrival order of contacts / rows)
@@ -672,7 +713,7 @@ def _run(ctx, nscenes, nfuzz, nfeat, with_lean=True):
             except (IndexError, ValueError, TypeError):
               res = None
           if res is None:
-            acc.find(f"get_data_into after mjw.forward raised (world {w})", "io.get_data_into", "inactive-contact-after-forward", xml=xml, world=w)
+            acc.find(f"get_data_into after mjw.forward raised (world {w})", "io.get_data_into", "export-raises", xml=xml, world=w)
             continue
           _oracle_after_forward(acc, mjm, ref, res, d2, w, xml)
       # fuzzed integer inputs: model <-> code only
@@ -700,7 +741,7 @@ RULE = ("random scenes: plane + 1-4 free bodies (sphere / horizontal capsule / b
 
 
 def correspondence(ctx):
-  acc, dis, corr = _run(ctx, 24 if ctx.thorough else 8, 12 if ctx.thorough else 5, len(FEATURES) if ctx.thorough else 10)
+  acc, dis, corr = _run(ctx, 24 if ctx.thorough else 6, 12 if ctx.thorough else 4, len(FEATURES) if ctx.thorough else 8)
   r = result(acc, RULE, extra={"model_vs_code": corr})
   r["evaluations"] += corr["put"] + corr["get"] + corr["fuzz"]
   r["disagreements"] += dis
